@@ -14,7 +14,7 @@ import asyncio
 import random
 
 from . import nodes
-from .g02_world import CRAWLS, Escape, get_loop, own_node_id, spy_crawls, xor_int
+from .g02_world import CRAWLS, KeyGen, get_loop, own_node_id, spy_crawls, xor_int
 from .simnet import SimNet
 from .tlc import MachineryError
 
@@ -90,7 +90,7 @@ class CrawlRec:
 
 
 class NetRun:
-    def __init__(self, n, seed, loss=0.04, kill=3, lookups=30, duration=150.0, strategy_period=5.0):
+    def __init__(self, n, seed, loss=0.04, kill=3, lookups=30, duration=150.0, strategy_period=5.0, hammer=0):
         from ipv8.dht.churn import PingChurn
         from ipv8.dht.community import DHTCommunity
         self.rng = random.Random(seed)
@@ -100,7 +100,8 @@ class NetRun:
         spy_crawls()
         del CRAWLS[:]
         self.n = n
-        self.nodes = [nodes.Node(self.netw) for _ in range(n)]
+        keygen = KeyGen("net-%d-%d" % (n, seed))
+        self.nodes = [nodes.Node(self.netw, key=keygen()) for _ in range(n)]
         self.ovs = [nd.add(DHTCommunity) for nd in self.nodes]
         for ov in self.ovs:
             ov.cancel_pending_task("node_maintenance")     # one crawl at a time per node: lookups are started by the driver
@@ -138,13 +139,12 @@ class NetRun:
         for q in range(lookups):
             t += self.rng.choice([0.05, 0.2, 1.0, 2.0, 4.0])
             self.loop.call_later(t, self._api, self.rng.randrange(n), "find", self.rng.choice(self.keys), None)
-        # two nodes hammer one key each: far more than 10 requests per 5 s to the nodes closest to it
-        for h in range(2):
+        # one node hammers one key: far more than 10 requests per 5 s to the nodes closest to it
+        if hammer:
             i = self.rng.randrange(n)
-            th = t + 2.0 + 9.0 * h
-            for q in range(16):
-                self.loop.call_later(th + 0.1 * q, self._api, i, "find", self.keys[h], None)
-        t += 20.0
+            for q in range(hammer):
+                self.loop.call_later(t + 2.0 + 0.01 * q, self._api, i, "find", self.keys[q % 2], None)
+            t += 12.0
         # a burst of lookups of one key by many nodes (rate limiter of the nodes close to the key)
         for i in self.rng.sample(range(n), min(n, 10)):
             self.loop.call_later(t + 5.0 + self.rng.random() * 0.5, self._api, i, "find", self.keys[0], None)
@@ -425,7 +425,7 @@ class NetRun:
 
     def crawl_traces(self):
         out = []
-        for rec in self.finished:
+        for rec in self.finished + [r for r in self.active.values() if len(r.events) > 1]:     # unfinished ones: a prefix
             evs = []
             for e in rec.events:
                 e = dict(e)
@@ -433,7 +433,7 @@ class NetRun:
                     e["chk"] = False
                     e["s"] = {}
                 evs.append(e)
-            out.append({"node": rec.x, "mode": rec.mode, "events": evs})
+            out.append({"node": rec.x, "mode": rec.mode, "finished": rec.done, "events": evs})
         return out
 
     def pair_traces(self, min_queries=3):
